@@ -183,7 +183,11 @@ func genCase(t *rapid.T) Case {
 		chain = rapid.IntRange(3, 5).Draw(t, "chain")
 	}
 	b := &budget{nodes: 40, bulks: 2}
-	c.Root = genNode(t, c.Src, 0, "dir", b, chain)
+	rootKind := "dir"
+	if c.Src != "tar" && rapid.IntRange(0, 49).Draw(t, "rootkind?") == 0 { // archive of a single non-directory
+		rootKind = rapid.SampledFrom([]string{"reg", "reg", "lnk", "chr", "blk"}).Draw(t, "rootkind")
+	}
+	c.Root = genNode(t, c.Src, 0, rootKind, b, chain)
 	return c
 }
 
@@ -251,6 +255,10 @@ func run(c Case) (o hx.Outcome) {
 	tree := expand(c.Root, true, 0)
 	if src == "tar" {
 		sockToFifo(tree)
+		if tree.kind != "dir" { // a tar stream describes the members of a directory
+			tree = expand(Spec{Kind: "dir", Perm: 0o755, Kids: []Spec{c.Root}}, true, 0)
+			sockToFifo(tree)
+		}
 	}
 	if c.Order != "given" || src == "disk" {
 		sortTree(tree)
@@ -330,6 +338,9 @@ func run(c Case) (o hx.Outcome) {
 	}
 	if src != "disk" && c.Order == "given" {
 		o.Class("order:unsorted")
+	}
+	if !want.IsDir() {
+		o.Class("root:not-a-directory")
 	}
 	if src == "tar" {
 		o.Class("tar:" + map[bool]string{true: "addroot", false: "rootentry"}[c.AddRoot])
